@@ -254,7 +254,7 @@ def main(tier, seed, replay=None):
     res.assumptions = ['copy.deepcopy gives an independent copy; list() a new list sharing its elements (modelled by the copy kinds of Persist/Model.v)',
                        'keyword order is insertion order (Python dict)']
     res.trusted.append('hand-written interpreter Persist/Model.v for the generated instruction lists; harness/props/c05.py')
-    core.prove(res, PROP, UNITS, PROOFS)
+    core.prove(res, PROP, UNITS, PROOFS, run_files=['theories/Persist/Run.v'])
     gen_ok = not any(w.startswith('translator:') for w, _ in res.tie_broken)
     import sys
     sys.path.insert(0, core.REPO)
